@@ -86,14 +86,30 @@ type rateH struct {
 	last     *last
 }
 
+var (
+	internMu sync.Mutex
+	interned = map[string]*ratelimit.RateSet{}
+)
+
 func newLimiter(rates string, capacity int) (*ratelimit.TokenLimiter, error) {
 	rs, err := parseRates(rates)
 	if err != nil {
 		return nil, err
 	}
+	// the extractor hands out one shared *RateSet per distinct rates= text of the scenario (the way a
+	// per-plan configuration would), for every source and every limiter of the scenario
 	extractRates := ratelimit.RateExtractorFunc(func(r *http.Request) (*ratelimit.RateSet, error) {
 		if v := r.Header.Get("X-Rates"); v != "" {
-			return parseRates(v)
+			internMu.Lock()
+			defer internMu.Unlock()
+			if rs, ok := interned[v]; ok {
+				return rs, nil
+			}
+			rs, err := parseRates(v)
+			if err == nil {
+				interned[v] = rs
+			}
+			return rs, err
 		}
 		return ratelimit.NewRateSet(), nil
 	})
@@ -422,6 +438,9 @@ func newConn(max int64) (*connH, error) {
 func main() {
 	hx.Main(func(cfg []string) (hx.Handler, string) {
 		hx.FreezeAt(0)
+		internMu.Lock()
+		interned = map[string]*ratelimit.RateSet{}
+		internMu.Unlock()
 		if len(cfg) < 2 {
 			return nil, "bad-cfg"
 		}
